@@ -14,6 +14,64 @@ open List MdsVerif.Model.Edit MdsVerif.Spec.Subseq MdsVerif.Spec.EditScript MdsV
 
 variable {α : Type}
 
+/-! ## the model functions with the regenerated facts (`Gen.Edit`) written out
+
+The proofs below unfold `gapEdits`, `tailEdits`, `scriptLoop`, `dropSingleEmit` only through these lemmas;
+each stops compiling when the corresponding expression of slice/edit.go changes. -/
+section facts
+open MdsVerif.Gen.Edit
+
+/-- the fuse rule as written in edit.go, on the gap `dl = lhs[lpos:lend]`, `dr = rhs[rpos:rend]` -/
+theorem gapEdits_def (dl dr : List α) :
+    gapEdits dl dr =
+      (if dl.length > 0 ∧ dr.length > 0 then [Edit.mk .replace dl dr]
+       else if dl.length > 0 then (if dr.length > 0 then [Edit.mk .drop dl [], Edit.mk .copy [] dr] else [Edit.mk .drop dl []])
+       else if dr.length > 0 then [Edit.mk .copy [] dr] else []) := by
+  cases dl <;> cases dr <;>
+    simp [gapEdits, gapEditsWith, gapReplace, gapDrop, gapCopy, gapReplaceRpos] <;> omega
+
+/-- the trailing gap `dl = lhs[lpos:]`, `dr = rhs[rpos:]` after the loop, as written in edit.go -/
+theorem tailEdits_def (dl dr : List α) :
+    tailEdits dl dr =
+      (if dl.length > 0 ∧ dr.length > 0 then [Edit.mk .replace dl dr]
+       else if dl.length > 0 then (if dr.length > 0 then [Edit.mk .drop dl [], Edit.mk .copy [] dr] else [Edit.mk .drop dl []])
+       else if dr.length > 0 then [Edit.mk .copy [] dr] else []) := by
+  cases dl <;> cases dr <;>
+    simp [tailEdits, gapEditsWith, tailReplace, tailDrop, tailCopy, tailReplaceRpos] <;> omega
+
+/-- the trailing gap is handled by the same case analysis -/
+theorem tailEdits_eq (dl dr : List α) : tailEdits dl dr = gapEdits dl dr := by
+  rw [tailEdits_def, gapEdits_def]
+
+theorem scriptLoop_zero (eq : α → α → Bool) (l r c : List α) : scriptLoop eq 0 l r c = none := by
+  simp [scriptLoop]
+
+theorem scriptLoop_nil (eq : α → α → Bool) (f : Nat) (l r : List α) :
+    scriptLoop eq (f + 1) l r [] = some (gapEdits l r) := by
+  simp [scriptLoop, tailEdits_eq]
+
+/-- one iteration: the two scans, `m := 1` and the run extension, the Emit `lhs[lpos : lpos+m]`, the advance -/
+theorem scriptLoop_cons (eq : α → α → Bool) (f : Nat) (l r : List α) (x : α) (c : List α) :
+    scriptLoop eq (f + 1) l r (x :: c) =
+      (do let (dl, l') ← scanTo eq x l
+          let (dr, r') ← scanTo eq x r
+          let m1 ← runLen eq (l'.drop 1) (r'.drop 1) c
+          let rest ← scriptLoop eq f (l'.drop (1 + m1)) (r'.drop (1 + m1)) (c.drop m1)
+          pure (gapEdits dl dr ++ Edit.mk .emit (l'.take (1 + m1)) [] :: rest)) := by
+  simp only [scriptLoop, runFirst, emitFrom, emitLo, emitHi, List.drop_zero, Nat.sub_zero, Nat.zero_add,
+    List.drop_succ_cons, Nat.add_comm 1]
+
+theorem dropSingleEmit_def (out : List (Edit α)) :
+    dropSingleEmit out = match out with
+      | [e] => if e.op = .emit then [] else out
+      | _ => out := by
+  match out with
+  | [] => simp [dropSingleEmit]
+  | [e] => by_cases h : e.op = .emit <;> simp [dropSingleEmit, singleLen, singleOp, EditOp.ofGen, h]
+  | _ :: _ :: _ => simp [dropSingleEmit, singleLen]; omega
+
+end facts
+
 /-- `c` is a common subsequence of `l`, `r` of maximal length -/
 def Opt (l r c : List α) : Prop :=
   c <+ l ∧ c <+ r ∧ ∀ s, s <+ l → s <+ r → s.length ≤ c.length
@@ -93,7 +151,7 @@ theorem gapEdits_cases (dl dr : List α) :
     (dl ≠ [] ∧ dr = [] ∧ gapEdits dl dr = [⟨.drop, dl, []⟩]) ∨
     (dl = [] ∧ dr ≠ [] ∧ gapEdits dl dr = [⟨.copy, [], dr⟩]) ∨
     (dl ≠ [] ∧ dr ≠ [] ∧ gapEdits dl dr = [⟨.replace, dl, dr⟩]) := by
-  cases dl <;> cases dr <;> simp [gapEdits]
+  cases dl <;> cases dr <;> simp [gapEdits_def]
 
 theorem spans_gap (dl dr : List α) (es : List (Edit α)) (l r : List α) (h : Spans es l r) :
     Spans (gapEdits dl dr ++ es) (dl ++ l) (dr ++ r) := by
@@ -242,7 +300,7 @@ theorem scriptLoop_spec (heq : ∀ a b, eq a b = true ↔ a = b) :
     intro c l r hf h
     cases c with
     | nil =>
-      refine ⟨gapEdits l r, by simp [scriptLoop], ?_, ?_, nonEmpty_gap l r, alternates_gap l r,
+      refine ⟨gapEdits l r, by simp [scriptLoop_nil], ?_, ?_, nonEmpty_gap l r, alternates_gap l r,
         fun _ => startsNonEmit_gap l r⟩
       · have := spans_gap l r [] [] [] ⟨rfl, rfl⟩
         simpa using this
@@ -257,7 +315,7 @@ theorem scriptLoop_spec (heq : ∀ a b, eq a b = true ↔ a = b) :
         ih (c.drop m1) (l0.drop m1) (r0.drop m1) (by simp at hf ⊢; omega) ho2
       have hstart' := hstart hstop
       refine ⟨gapEdits dl dr ++ ⟨.emit, x :: l0.take m1, []⟩ :: rest, ?_, ?_, ?_, ?_, ?_, ?_⟩
-      · simp [scriptLoop, hsl, hsr, hm, hrest, Nat.add_comm 1 m1]
+      · simp [scriptLoop_cons, hsl, hsr, hm, hrest, Nat.add_comm 1 m1]
       · rw [hl, hr]
         apply spans_gap
         refine ⟨rfl, l0.drop m1, r0.drop m1, ?_, ?_, hsp⟩
@@ -302,7 +360,7 @@ theorem runLen_self (heq : ∀ a b, eq a b = true ↔ a = b) :
 theorem scriptLoop_self (heq : ∀ a b, eq a b = true ↔ a = b) (x : α) (t : List α) (f : Nat) :
     scriptLoop eq (f + 2) (x :: t) (x :: t) (x :: t) = some [⟨.emit, x :: t, []⟩] := by
   have he : eq x x = true := (heq x x).mpr rfl
-  simp [scriptLoop, scanTo, he, runLen_self heq t, Nat.add_comm 1 t.length, gapEdits]
+  simp [scriptLoop_cons, scriptLoop_nil, scanTo, he, runLen_self heq t, Nat.add_comm 1 t.length, gapEdits_def]
 
 /-! ## the whole function -/
 
@@ -310,12 +368,12 @@ theorem dropSingleEmit_cases (es : List (Edit α)) :
     (dropSingleEmit es = es ∧ ¬ ∃ e, es = [e] ∧ e.op = .emit) ∨
     (dropSingleEmit es = [] ∧ ∃ e, es = [e] ∧ e.op = .emit) := by
   match es with
-  | [] => left; simp [dropSingleEmit]
+  | [] => left; simp [dropSingleEmit_def]
   | [e] =>
     by_cases h : e.op = .emit
-    · right; simp [dropSingleEmit, h]
-    · left; simp [dropSingleEmit, h]
-  | _ :: _ :: _ => left; simp [dropSingleEmit]
+    · right; simp [dropSingleEmit_def, h]
+    · left; simp [dropSingleEmit_def, h]
+  | _ :: _ :: _ => left; simp [dropSingleEmit_def]
 
 variable [DecidableEq α]
 
@@ -333,13 +391,13 @@ theorem rawScript_spec (heq : ∀ a b, eq a b = true ↔ a = b) (lhs rhs : List 
 theorem editScriptFunc_self (heq : ∀ a b, eq a b = true ↔ a = b) (l : List α) :
     editScriptFunc? eq l l = some [] := by
   cases l with
-  | nil => simp [editScriptFunc?, rawScript?, lcsFunc?, scriptLoop, gapEdits, dropSingleEmit]
+  | nil => simp [editScriptFunc?, rawScript?, lcsFunc?_def, scriptLoop_nil, gapEdits_def, dropSingleEmit_def]
   | cons x t =>
     obtain ⟨c, hc, h1, _, h3⟩ := lcsFunc_spec heq (x :: t) (x :: t)
     have hlen := h3 (x :: t) (Sublist.refl _) (Sublist.refl _)
     have hce : c = x :: t := h1.eq_of_length_le hlen
     subst hce
-    simp [editScriptFunc?, rawScript?, hc, scriptLoop_self heq x t t.length, dropSingleEmit]
+    simp [editScriptFunc?, rawScript?, hc, scriptLoop_self heq x t t.length, dropSingleEmit_def]
 
 /-- **editScriptFunc**: total, valid, minimal, canonical, empty iff equal. -/
 theorem editScriptFunc_spec (heq : ∀ a b, eq a b = true ↔ a = b) (lhs rhs : List α) :
